@@ -55,6 +55,8 @@ type ProxyParams struct {
 	TryProbe     bool         // C17: ... and the per-try timeout (retry policy with a retry budget, every attempt silent)
 	NoRefuse     bool         // every host accepts connections
 	MutFilter    bool         // C01: filter f0 modifies the requests that ask for it (header "x-fm")
+	AutoList     bool         // auto-detect listener configured with the list of its protocols instead of "Auto"
+	TwoListeners bool         // C11: a second listener (same configuration, another port) before the one of the other arms
 	BoltGoAway   bool         // C11: the bolt listener announces the stop with a go-away frame (enable_bolt_goaway)
 	LocalErr     bool         // some requests ask for a service that has no route, or whose cluster has no host: MOSN answers itself
 	UpIdleS      int          // cluster idle_timeout in seconds (0 = not configured): MOSN closes idle upstream connections itself
@@ -128,6 +130,7 @@ func DrawProxyParams(ch *sim.Choices, prop string) ProxyParams {
 			p.Protos = []string{"bolt", "http1"}
 		}
 		p.Proto = p.Protos[0]
+		p.AutoList = ch.Bool("params", "autolist")
 	}
 	p.NConns = 1 + ch.Pick("params", "nconns", 3)
 	p.ReqsPerConn = 1 + ch.Pick("params", "reqs", 6)
@@ -210,6 +213,7 @@ func DrawProxyParams(ch *sim.Choices, prop string) ProxyParams {
 		p.DrainMs = pickFrom(ch, "params", "drain", []int{2000, 5000, 15000})
 		p.NConns = 1 + ch.Pick("params", "nconns11", 4)
 		p.BoltGoAway = ch.Bool("params", "boltgoaway")
+		p.TwoListeners = ch.Bool("params", "twolisteners")
 	}
 	if p.Proto == "tars" || p.Proto == "dubbo-thrift" {
 		// MOSN's tars codec cannot build replies of its own (Hijack / Reply "not support"): a request that
@@ -378,6 +382,15 @@ func (w *Proxy) buildConfig() []byte {
 	if p.Auto {
 		// every request carries a "service" header, whatever its protocol
 		pcfg = J{"downstream_protocol": "Auto", "upstream_protocol": "Auto", "router_config_name": "r0"}
+		if p.AutoList && len(p.Protos) >= 2 {
+			// the listener names its protocols instead of saying "Auto": detection then asks only their matchers
+			var names []string
+			for _, x := range p.Protos {
+				names = append(names, poolName(x))
+			}
+			pcfg["downstream_protocol"] = strings.Join(names, ",")
+			w.S.Fault("w:listener_protocol_list")
+		}
 		match = J{"headers": []J{{"name": "service", "value": ".*", "regex": true}}}
 	}
 	var extraRoutes []J
@@ -420,12 +433,37 @@ func (w *Proxy) buildConfig() []byte {
 		"close_graceful": true,
 		"servers": []J{{
 			"default_log_path": logPath(), "default_log_level": logLevel(), "processor": 1,
-			"listeners": []J{lis},
+			"listeners": w.listeners(lis),
 			"routers":   []J{routerCfg},
 		}},
 		"cluster_manager": J{"clusters": append([]J{cluster}, extraClusters...)},
 	}
 	return mustJSON(cfg)
+}
+
+// listeners: the listener of the run and — C11, half of the runs — a second one in front of it with the
+// same configuration on another port (the clients with an even index connect to that one).
+func (w *Proxy) listeners(lis J) []J {
+	if !w.P.TwoListeners {
+		return []J{lis}
+	}
+	first := J{}
+	for k, v := range lis {
+		first[k] = v
+	}
+	first["name"], first["address"] = "lfirst", lisAddr2
+	w.S.Fault("w:two_listeners")
+	return []J{first, lis}
+}
+
+const lisAddr2 = "127.0.0.1:2046"
+
+// addrFor: the listener address client connection ci uses.
+func (w *Proxy) addrFor(ci int) string {
+	if w.P.TwoListeners && ci%2 == 0 {
+		return lisAddr2
+	}
+	return w.lisAddr
 }
 
 // NewProxy builds the world (inside the bubble).
@@ -590,7 +628,7 @@ func (w *Proxy) Setup() error {
 	if ch.Bool("params", "xsites") {
 		for _, site := range XSites {
 			if ch.Bool("params", "arm:"+site) {
-				s.Armed[site] = true
+				s.Arm(site)
 			}
 		}
 	}
@@ -1104,7 +1142,7 @@ func (w *Proxy) setupXClient(ci int, proto string, reqIdxP *int) {
 				w.sendsPending--
 				if cl.Conn == nil && !cl.Tried {
 					cl.Tried = true
-					cl.Conn = w.N.Connect(w.lisAddr, cl.Name, cl)
+					cl.Conn = w.N.Connect(w.addrFor(ci), cl.Name, cl)
 					if cl.Conn != nil {
 						cl.Conn.SegMode = seg
 					}
@@ -1189,7 +1227,7 @@ func (w *Proxy) setupH1Client(ci int, reqIdxP *int) {
 		w.h1clients = append(w.h1clients, cl)
 		seg := p.SegMode
 		cl.Connect = func() *sim.Conn {
-			c := w.N.Connect(w.lisAddr, cl.Name, cl)
+			c := w.N.Connect(w.addrFor(ci), cl.Name, cl)
 			if c != nil {
 				c.SegMode = seg
 			}
